@@ -135,9 +135,11 @@ func (w *writer) Free() {
 		return
 	}
 
+	// Close releases an autorelease writer, which must not be touched afterwards
+	release := w.releaseState || w.releaseWriter
 	w.close()
 
-	if !w.releaseState && !w.releaseWriter {
+	if !release {
 		w.free()
 	}
 }
